@@ -97,6 +97,9 @@ struct Event {
     std::uint64_t hash_seed = 0;   // 0: shipped seed
     std::uint64_t hash_budget = 0; // 0: shipped budget
     long long alloc_fail_at = -1;  // -1: never; n: n-th allocation in update
+    int alloc_fail_from_end = -1;  // >= 0: a fault-free update first counts the
+                                   // allocations N, then another update fails
+                                   // at allocation N-1-k (a late abort)
     int trace = 0;                 // enable trace output (to a null stream)
     // check
     std::uint64_t sample_seed = 0;
